@@ -21,7 +21,8 @@ for sid in sorted(os.listdir(src)):
         print('skip (not confirmed):', sid, ver.get(sid)); continue
     if sid not in mat:
         print('skip (no check run):', sid); continue
-    prop, rc, sigs = mat[sid]
+    chk, rc, sigs = mat[sid]
+    prop = sid[:3]
     dst=f'{V}/seeded/{sid}'
     if os.path.exists(dst): shutil.rmtree(dst)
     shutil.copytree(d, dst)
@@ -36,7 +37,7 @@ for sid in sorted(os.listdir(src)):
       'what_it_needs_to_manifest': needs or notes[:1500],
       'confirmed_by_me': {'how': how or 'tools/verify_seed.sh in a scratch worktree of /repo HEAD: git apply, go build ./..., full `go test -vet=off -count=1 ./...` compared with BASELINE stable_pass (all 167 pass; TestRunWithConcurrentShutdown is load-flaky and ignored), demonstration run with the change (must fail) and after `git checkout -- .` (must pass); worktree removed afterwards',
                           'result': 'CONFIRMED '+ver[sid][1]},
-      'caught_by': {'check': f'./check {prop} quick', 'how_run':'tools/seedrun2.sh (patch applied to a scratch worktree, check pointed at it with VERIF_REPO; /repo untouched)', 'exit_code': rc, 'violation_signatures': sigs}}
+      'caught_by': {'check': f'./check {chk} quick', 'how_run':'tools/seedrun2.sh (patch applied to a scratch worktree, check pointed at it with VERIF_REPO; /repo untouched)', 'exit_code': rc, 'violation_signatures': sigs}}
     json.dump(meta, open(f'{dst}/meta.json','w'), indent=1)
     shutil.rmtree(d)
     print('promoted', sid, rc, sigs[:2])
